@@ -592,7 +592,7 @@ pub fn gen_cfg(r: &mut Rng, o: &GenOpts) -> BuildCfg {
             size,
             content_seed: r.next(),
             mode,
-            source_perm: [0o644, 0o755, 0o600, 0o640, 0o444, 0o775][r.usize(6)],
+            source_perm: [0o644, 0o755, 0o600, 0o640, 0o444, 0o775, 0o4755, 0o2755, 0o1644, 0o6711][r.usize(10)],
             user: if r.chance(2, 3) { Some(USERS[r.usize(owner_pool)].to_string()) } else { None },
             group: if r.chance(2, 3) { Some(USERS[r.usize(owner_pool)].to_string()) } else { None },
             flags,
